@@ -27,8 +27,11 @@ Operations (answers are one line):
   wwrite <pver> <net> <msg…>      WriteMessage                                        -> ok <hex> | err <class>
   wframe <pver> <net> <hex>       ReadMessage                                         -> ok <consumed> <msg…> | err <class>
   wfalloc <pver> <net> <hex>      allocation meter of that ReadMessage                -> <n> <max> <sum>
+  wstream <pver> <net> <hex>      ReadMessage repeatedly on ONE reader until the stream is exhausted
+                                  -> <item> ; <item> ; …   with <item> = ok <command> <consumed> | err <class>
 -/
 import BHS.Model.Wire
+import BHS.Model.WireStream
 import BHS.Model.WireSha
 
 namespace Driver.Ops.Wire
@@ -158,6 +161,12 @@ def meter (al : List Nat) : String :=
 
 def sha : Bytes → Bytes := BHS.WireSha.sha256
 
+def msgName (m : Msg) : String := ((renderMsg m).splitOn " ").headD ""
+
+def renderItem : StreamItem → String
+  | .ok m c => s!"ok {msgName m} {c}"
+  | .err e => "err " ++ errName e
+
 def handle (st : S) : List String → Option (S × String)
   | ["wcfg", ebs] => some <| match ebs.toNat? with
     | some e => ({ st with gmax := maxMessagePayload e }, s!"{maxMessagePayload e}")
@@ -199,6 +208,10 @@ def handle (st : S) : List String → Option (S × String)
       (st, match readMessage sha st.gmax pv n b with
         | .ok (m, rest) => s!"ok {b.length - rest.length} " ++ renderMsg m
         | .error e => "err " ++ errName e)
+    | _, _, _ => (st, "bad-args")
+  | ["wstream", pver, net, h] => some <| match pver.toNat?, net.toNat?, fromHex h with
+    | some pv, some n, some b =>
+      (st, String.intercalate " ; " ((readStream sha st.gmax pv n (b.length / 24 + 2) b).map renderItem))
     | _, _, _ => (st, "bad-args")
   | ["wfalloc", pver, net, h] => some <| match pver.toNat?, net.toNat?, fromHex h with
     | some pv, some n, some b => (st, meter (readMessageAllocs sha st.gmax pv n b))
